@@ -398,7 +398,23 @@ func init() {
 			}
 			return nil
 		},
+		"sort.Slice":       sortSliceModel,
+		"sort.SliceStable": sortSliceModel,
 		// ---------------------------------------------------------------- strconv
+		"strconv.ParseBool": func(in *Interp, fn *ssa.Function, a []Value) Value {
+			x := nfOf(a[0])
+			for _, w := range []string{"1", "t", "T", "TRUE", "true", "True"} {
+				if in.p.branch("parsebool-true", in.p.strEq(x, nfLit(w))) {
+					return TupleV{mkBool(true), IfaceV{}}
+				}
+			}
+			for _, w := range []string{"0", "f", "F", "FALSE", "false", "False"} {
+				if in.p.branch("parsebool-false", in.p.strEq(x, nfLit(w))) {
+					return TupleV{mkBool(false), IfaceV{}}
+				}
+			}
+			return TupleV{mkBool(false), in.mkErr(nfCat(nfLit("strconv.ParseBool: parsing "), in.quoteApprox(x), nfLit(": invalid syntax")))}
+		},
 		"strconv.Atoi": func(in *Interp, fn *ssa.Function, a []Value) Value {
 			v, ok := in.p.atoi(nfOf(a[0]))
 			if !ok {
@@ -1592,4 +1608,42 @@ func (in *Interp) trimSet(s NF, set ByteSet, left, right bool) NF {
 		s = upto
 	}
 	return in.p.res(s)
+}
+
+// sortSliceModel: sort.Slice / sort.SliceStable as an insertion sort that calls the real less
+// closure (symbolic outcomes fork). The order among elements that less does not separate is the
+// incoming order — for sort.Slice one of the orders the real (unstable) algorithm may produce.
+func sortSliceModel(in *Interp, fn *ssa.Function, a []Value) Value {
+	iv, ok := a[0].(IfaceV)
+	if !ok {
+		in.unsupported("sort.Slice on %s", describe(a[0]))
+	}
+	s, ok := iv.v.(SliceV)
+	if !ok {
+		in.unsupported("sort.Slice on %s", describe(iv.v))
+	}
+	less, ok := a[1].(*Closure)
+	if !ok || less == nil {
+		in.panicGo("runtime error: invalid memory address or nil pointer dereference (nil less func)")
+	}
+	call := func(i, j int) bool {
+		var r Value
+		args := []Value{mkInt(int64(i)), mkInt(int64(j))}
+		if less.host != nil {
+			r = less.host(in, args)
+		} else {
+			r = in.callFunction(less.fn, args, less.fv)
+		}
+		return in.p.branch("sort-less", r.(BoolV).b)
+	}
+	for i := 1; i < s.n; i++ {
+		for j := i; j > 0; j-- {
+			if !call(j, j-1) {
+				break
+			}
+			x, y := s.a.e[s.off+j-1], s.a.e[s.off+j]
+			x.v, y.v = y.v, x.v
+		}
+	}
+	return nil
 }
